@@ -193,6 +193,9 @@ def gen_tls_conn(R, cid, cfg, used, pair=None, **epkw):
         side = "s" if ver == T.TLS13 else "c"
         if recs[0]["d"] == side and not conn.get("resume"):
             conn["early_data_side"] = side
+    HR = R.fork("helloreq")
+    if ver != T.TLS13 and n >= 1 and HR.chance(cfg.get("hello_request_pct", 8)):
+        conn["hello_req"] = [HR.range(0, n)]
     if ver == T.TLS13 and n >= 0 and A.chance(cfg.get("ticket_pct", 50)):
         tk = {}
         for _ in range(A.range(1, 2)):
